@@ -28,7 +28,7 @@ def crop_selections(fx, ctx, rule):
     """The two row selections of the cropping block: (frame term, condition) for type<=1 and type>1."""
     f = ctx.project.func(Q, rule)
     ctx.saw(f)
-    evs = fx.own_events(Q)
+    evs = fx.deep_events(Q)
     stores = [e for e in evs if e.kind == 'store' and tag(e.target) == 'col' and e.target[2] in ('type', 'height')]
     drops = [e for e in evs if e.kind == 'call' and tag(e.call) == 'mcall' and e.call[2] == 'drop']
     return f, evs, stores, drops
@@ -76,7 +76,7 @@ def flag_definition(ctx, rule='C02-R3'):
     # _ncd_or_nsc reads only the flag
     nq = 'ampycloud.data.CeiloChunk._ncd_or_nsc'
     nf = p.func(nq, rule)
-    ret = fx.summ[nq].ret
+    ret = fx.deep(nq)[1].ret
     want = ('phi', ((FLAG, C('NSC')), (T.mk_not(FLAG), C('NCD'))))
     ok = tag(ret) == 'phi' and dict(ret[1]) == dict(want[1])
     ctx.check(ok, rule, nq, nf.node.name, nf.loc(),
